@@ -123,6 +123,18 @@ pub fn measure(_shape: Shape, _s: usize) -> (i32, i32) {
     panic!("the height workload needs the verification hook")
 }
 
+#[allow(unused_variables)]
+fn audit(st: &IncrState, when: &str) -> Result<(), String> {
+    #[cfg(cormacrelf_incremental_rs_verif)]
+    {
+        let a = st.verif_audit();
+        if !a.is_empty() {
+            return Err(format!("audit {when}: {}", a.join(" | ")));
+        }
+    }
+    Ok(())
+}
+
 pub struct Case {
     pub desc: String,
     pub verdict: Result<bool, String>,
@@ -198,6 +210,39 @@ pub fn height_case(shape: Shape, s: usize, n: usize, cfg: Config) -> Case {
                 let r = catch_unwind(AssertUnwindSafe(|| st.stabilise()));
                 if let Err(e) = r {
                     return Err(format!("stabilise after shrinking to {n} panicked: {}", crate::panic_message(e)));
+                }
+                // reconfiguring with a write already pending must not lose it (either direction)
+                let reference = {
+                    let big = IncrState::new_with_height(4096);
+                    let rb = build(&big, shape, s);
+                    let _ = drive(&big, &rb);
+                    rb.base.set(2);
+                    big.stabilise();
+                    rb.obs.try_get_value()
+                };
+                b.base.set(2);
+                let r = catch_unwind(AssertUnwindSafe(|| st.set_max_height_allowed(n + grow)));
+                if let Err(e) = r {
+                    return Err(format!("growing the limit back to {} with a write pending panicked: {}", n + grow, crate::panic_message(e)));
+                }
+                audit(&st, "after growing with a write pending")?;
+                let r = catch_unwind(AssertUnwindSafe(|| st.set_max_height_allowed(n)));
+                if let Err(e) = r {
+                    return Err(format!("shrinking to {n} with a write pending panicked: {}", crate::panic_message(e)));
+                }
+                audit(&st, "after shrinking with a write pending")?;
+                let r = catch_unwind(AssertUnwindSafe(|| st.stabilise()));
+                if let Err(e) = r {
+                    return Err(format!("stabilise after reconfiguring with a write pending panicked: {}", crate::panic_message(e)));
+                }
+                if b.obs.try_get_value() != reference {
+                    return Err(format!(
+                        "a write made before set_max_height_allowed({n}) was not propagated by the next stabilise: observer {:?}, expected {:?}",
+                        b.obs.try_get_value(), reference
+                    ));
+                }
+                if !st.is_stable() {
+                    return Err("state not stable after stabilise following a reconfiguration".into());
                 }
                 let (h_chain_0, _) = measure(Shape::Chain, 0);
                 let exact_len = n as i32 - h_chain_0;
